@@ -26,6 +26,8 @@ def prefix_of(ev, idx):
 
 def run(ctx):
     ctx.build("h-programs", "c21")
+    if ctx.replay_file:
+        ctx.note("replay: the recorded case lies inside the finite domain of this check, which is re-executed as a whole")
     def explore(depth):
         src = open(ctx.spec("MC_Revertible.cfg")).read()
         cfg = "MC_Revertible_run_%s_%d" % (ctx.tier, depth)
